@@ -65,6 +65,7 @@ Definition model_shapes : table :=
   ; ("span!(ctx)", [SIfEnabled [SInvoke "Span::new"] [SInvoke "MacroCallsite::disabled_span"]])
   ; ("MacroCallsite::disabled_span", [SInvoke "Span::none"])
   ; ("Instrument::instrument", [SMk "Instrumented"])
+  ; ("Instrument::in_current_span", [SInvoke "Span::current"; SInvoke "Instrument::instrument"])
   ; ("WithCollector::with_collector", [SMk "WithDispatch"])
   ; ("WithCollector::with_current_collector", [SWithDefault [SMk "WithDispatch"]])
   ; ("Instrumented::poll", [SGuard "Span::enter"; SBody])
@@ -90,6 +91,7 @@ Definition model_shapes : table :=
   ; ("WithDispatch::dropglue", [SBody])
   ; ("WithDispatch::clone", [SBody])
   ; ("futures::Instrument::instrument", [SMk "Instrumented"])
+  ; ("futures::Instrument::in_current_span", [SInvoke "Span::current"; SInvoke "Instrument::instrument"])
   ; ("futures::WithCollector::with_collector", [SMk "WithDispatch"])
   ; ("futures::WithCollector::with_current_collector", [SWithDefault [SMk "WithDispatch"]])
   ; ("futures::Instrumented::poll", [SGuard "Span::enter"; SBody])
@@ -267,6 +269,30 @@ Definition captures_default (tbl : table) : bool :=
 Fixpoint oconcat (l : list (option (list micro))) : option (list micro) :=
   match l with [] => Some [] | x :: l' => match x, oconcat l' with Some a, Some b => Some (a ++ b) | _, _ => None end end.
 
+(** dropping holder n on thread t, from the drop-glue rows *)
+Definition emit_drop (tbl : table) (o : own) (t : tid) (n : name) : option (list micro) :=
+  let fl := flat_fn tbl env0 in
+  let cx (e : ent) (body : list micro) := mkPctx e n t 0%N body in
+  match kind_of o n, ents_on o n with
+  | Some KHandle, [] => opms (cx (mkEnt EOwned n t) []) (fl "Span::dropglue")
+  | Some KHandle, [e] => opms (cx e []) (fl "EnteredSpan::dropglue")
+  | Some k, _ => opms (cx (mkEnt ETmp n t) [MMark t (MInnerDrop n)]) (fut_shape tbl k "dropglue")
+  | None, _ => None
+  end.
+Fixpoint emit_drops (tbl : table) (o : own) (t : tid) (ls : list name) : option (list micro * own) :=
+  match ls with
+  | [] => Some ([], o)
+  | n :: ls' =>
+      match emit_drop tbl o t n with
+      | Some ms =>
+          match oexec ms o with
+          | Some o1 => match emit_drops tbl o1 t ls' with Some (ms', o2) => Some (ms ++ ms', o2) | None => None end
+          | None => None
+          end
+      | None => None
+      end
+  end.
+
 (** The micro-actions of an action, computed from the table.  The ownership side conditions are [compile]'s business
     (they are rustc's rules, not read off these method bodies); the ent a guard drop / frame end refers to is looked up in
     the ownership state exactly as [compile] does. *)
@@ -279,13 +305,7 @@ Definition emit_tbl (tbl : table) (o : own) (t : tid) (a : action) : option (lis
   | Current n => Some [MCurrentTo n t]
   | OrCurrent n => Some [MOrCurrent n t]
   | Clone r n => opms (cx (mkEnt EOwned r t) r n []) (fl "Span::clone")
-  | Drop n =>
-      match kind_of o n, ents_on o n with
-      | Some KHandle, [] => opms (plain n) (fl "Span::dropglue")
-      | Some KHandle, [e] => opms (cx e n 0%N []) (fl "EnteredSpan::dropglue")
-      | Some k, _ => opms (cx (mkEnt ETmp n t) n 0%N [MMark t (MInnerDrop n)]) (fut_shape tbl k "dropglue")
-      | None, _ => None
-      end
+  | Drop n | PDrop n => emit_drop tbl o t n
   | Enter r g => opms (cx (mkEnt (EGuard g) r t) r 0%N []) (fl "Span::enter")
   | DropGuard g => obind (find_guard o g) (fun e => opms (cx e (e_holder e) 0%N []) (fl "Entered::dropglue"))
   | Entered n => opms (cx (mkEnt EOwned n t) n 0%N []) (fl "Span::entered")
@@ -338,6 +358,26 @@ Definition emit_tbl (tbl : table) (o : own) (t : tid) (a : action) : option (lis
       | Some [(POwn KCloneSpan, _); (POwn KTryClose, _)] =>   (* the clone of the source is made, then the old value dropped *)
           Some [MCloneTo b n t; MSwap a n; MRelease n t]
       | _ => None
+      end
+  | ScopeEndL unwind ls =>
+      (* the closure's locals are dropped, then what is left of in_scope runs *)
+      obind (emit_drops tbl o t ls) (fun mo' =>
+        obind (top_frame (snd mo') t) (fun e =>
+          obind (opms (cx e (e_holder e) 0%N []) (option_map (fun l => on_exit unwind (post_body l)) (fl "Span::in_scope")))
+                (fun a => Some (fst mo' ++ a))))
+  | PollEndL res ls =>
+      obind (emit_drops tbl o t ls) (fun mo' =>
+        obind (top_frame (snd mo') t) (fun e => obind (kind_of (snd mo') (e_holder e)) (fun k =>
+          obind (opms (cx e (e_holder e) 0%N [])
+                      (option_map (fun l => on_exit (is_unwind res) (post_body l)) (fut_shape tbl k "poll")))
+                (fun a => Some (fst mo' ++ a)))))
+  | InstrumentCurrent n _ =>
+      match lookup_row tbl "Instrument::in_current_span" with
+      | Some r =>
+          if row_eqb r [SInvoke "Span::current"; SInvoke "Instrument::instrument"]
+          then obind (opms (plain n) (fl "Instrument::instrument")) (fun a => Some (MCurrentTo n t :: a ++ [MSetKind n KFut]))
+          else None
+      | None => None
       end
   | SetDefault c => Some [MPushDefault t c]
   | CloseScope => Some [MPopDefault t]
@@ -392,7 +432,7 @@ Fixpoint ctor (fuel : nat) (tbl : table) (c : cid) (t : tid) (parg : option sid)
                      mkCst (mkDyn (d_vals d1) (d_defaults d1) (i + 1)%N (d_log d1) ((i, c) :: d_made d1) (d_dropped d1) (d_disp d1) (d_hid d1) (d_hlog d1))
                            (Some i) (c_po st) (c_res st)
                | SIfCurrent th el =>
-                   match (if (c =? 0)%N || per_handle c then None else hd_error (stack_of (d_log (c_d st)) c t)) with
+                   match (if (c =? 0)%N then None else hd_error (stack_of (d_log (c_d st)) c t)) with
                    | Some i => rec th (mkCst (c_d st) (Some i) (c_po st) (c_res st))
                    | None => rec el st
                    end
